@@ -32,7 +32,7 @@ func runC06(c *core.Ctx) {
 	c.Rule("C06.consumer", "A1/A3: groupedConsumer.getOrCreateGroup calls NewGroup only on a map miss, stores the new receiver under the id it looked up and returns it; Point/BeginBatch/BufferedBatch/Barrier dispatch a message to the receiver obtained for that message's own GroupInfo(); BatchPoint/EndBatch use the receiver chosen by BeginBatch and EndBatch clears it")
 	c.Rule("C06.groupid", "A2/A12: ToGroupID writes the name iff ByName and, for every element of dims.TagNames (no early exit, nothing conditional), the tag name and the tag value; dynamic strings written between constant delimiters must be escaped or length-prefixed (injectivity)")
 	c.Rule("C06.dimsequal", "A7: Dimensions.Equal, which decides whether the cached group id of a message is recomputed, compares every field of Dimensions on both operands")
-	c.Rule("C06.cache", "A1: InfluxQLNode.getCreateFn returns the node-level cached constructor only when the field kind is unchanged and a constructor is cached; otherwise it stores the new kind and the constructor determined for it")
+	c.Rule("C06.cache", "A1: InfluxQLNode.getCreateFn returns the node-level cached constructor only when the field kind is unchanged and a constructor is cached; otherwise it determines the constructor for the new kind and stores kind and constructor together, only when one was found (F50: a rejected kind leaves the cache unchanged)")
 	c.Rule("C06.fresh", "A3: every NewGroup builds its receiver from a composite literal / constructor call made in that call (never returns a value kept in a node field)")
 	ruleCopyReset(c, "C06.copyreset")
 
@@ -803,9 +803,11 @@ func c06Cache(c *core.Ctx, root *packages.Package) {
 			case a["samekind"] && a["cached"]:
 				return "→cached"
 			case a["err"]:
-				return "kind=kind,determine,→err | determine,→err"
+				// F50: a rejected kind leaves the cache alone. Storing the kind first (as the code did) pairs the new kind with
+				// the constructor cached for the old one: the next point of the rejected kind gets that constructor.
+				return "determine,→err"
 			}
-			return "kind=kind,determine,fn=determined,→determined | determine,kind=kind,fn=determined,→determined | determine,fn=determined,kind=kind,→determined"
+			return "determine,kind=kind,fn=determined,→determined | determine,fn=determined,kind=kind,→determined"
 		}})
 }
 
